@@ -105,6 +105,14 @@ type Opts struct {
 	// OnFact is called whenever a branch literal is recorded, so that rules can
 	// assume its consequences (e.g. HasPrefix(s, ";") => len(s) >= 1).
 	OnFact func(x *Explorer, t *Term, pol bool)
+	// OnBackEdge is called when control returns to a loop head from inside the
+	// loop, with the values the head's phis had during this iteration and the
+	// values they are about to take (progress arguments).
+	OnBackEdge func(x *Explorer, fn *ssa.Function, head *ssa.BasicBlock, phis []*ssa.Phi, old, new []*Term, eval func(ssa.Value) *Term)
+	// OnGeneralise is called when a loop-head phi is replaced by a fresh term:
+	// incoming is the value arriving on the edge just taken.  Rules may attach
+	// a note (SetNote) relating the fresh term to it under an assumed invariant.
+	OnGeneralise func(x *Explorer, fn *ssa.Function, head *ssa.BasicBlock, phi *ssa.Phi, incoming, fresh *Term)
 	// LoopInvariants: seed counting-loop invariants (lower bound of the
 	// counter, counter <= bound) when a loop head is generalised.
 	LoopInvariants bool
@@ -142,6 +150,7 @@ type factTrail struct {
 	old     bool
 	existed bool
 	kv      bool // knownVal entry
+	note    bool // notes entry
 	oldT    *Term
 	bd      bool // bounds entry
 	oldB    bound
@@ -167,6 +176,7 @@ type Explorer struct {
 	known   map[int]*Term // term ID -> constant it is known to equal
 	bounds  map[int]bound // term ID -> interval learnt from literals
 	inOnFact bool
+	notes    map[int]*Term // rule-defined relation attached to a term (undone on backtracking)
 	depth    int // prover recursion depth
 	ftrail  []factTrail
 	events  []Event
@@ -199,6 +209,7 @@ func (x *Explorer) Paths(fn *ssa.Function, o Opts, cb func(*Path)) (int, error) 
 	x.mem, x.cells = map[int]*Term{}, map[int]*Term{}
 	x.facts, x.known = map[int]bool{}, map[int]*Term{}
 	x.bounds = map[int]bound{}
+	x.notes = map[int]*Term{}
 	x.etrail, x.mtrail, x.ftrail, x.events, x.lits, x.blocks = nil, nil, nil, nil, nil, nil
 	x.counter, x.epoch, x.paths, x.err = 0, 0, 0, nil
 	x.allocN = map[*ssa.Alloc]int{}
@@ -297,7 +308,13 @@ func (x *Explorer) restore(s snapshot) {
 	x.mtrail = x.mtrail[:s.mtrail]
 	for i := len(x.ftrail) - 1; i >= s.ftrail; i-- {
 		t := x.ftrail[i]
-		if t.bd {
+		if t.note {
+			if t.existed {
+				x.notes[t.id] = t.oldT
+			} else {
+				delete(x.notes, t.id)
+			}
+		} else if t.bd {
 			if t.existed {
 				x.bounds[t.id] = t.oldB
 			} else {
@@ -588,3 +605,13 @@ func (x *Explorer) lookupLt(a, b *Term) *Term {
 	t := Term{Kind: KLt, Args: []*Term{a, b}, Type: types.Typ[types.Bool]}
 	return x.T.find(t)
 }
+
+// SetNote attaches a rule-defined related term to t for the rest of the path.
+func (x *Explorer) SetNote(t, rel *Term) {
+	old, ok := x.notes[t.ID]
+	x.ftrail = append(x.ftrail, factTrail{id: t.ID, note: true, oldT: old, existed: ok})
+	x.notes[t.ID] = rel
+}
+
+// Note returns the term attached by SetNote, if any.
+func (x *Explorer) Note(t *Term) *Term { return x.notes[t.ID] }
